@@ -861,10 +861,20 @@ EXT2 = {
                             "SubscribeResponses, measured where they are sent: 2-5 string/bytes values of 0.5-3 MiB in one plain or atomic notification (above 4 MiB, sometimes above 8 MiB), "
                             "1000-20000 (thorough 100000) updates in one notification (up to 10 / 24 MiB), rarely one value above 4 MiB; in the sync burst and/or after it, with client-library observers "
                             "streaming meanwhile, sometimes followed by a stream break after which the target reports the big state again in ONE response; read back through the client cache and all "
-                            "six CLI invocations."),
-                technique="; target address lists with dead endpoints; single responses above gRPC's default message size",
+                            "six CLI invocations."
+                            " Every part: targets that speak the legacy value encoding - a per-target dimension (3 in 8 targets, somewhat more in the slow part): 60-100% of what such a device says "
+                            "travels in the deprecated Update.value field (gnmi.Value, encoding JSON with objects / arrays / strings / numbers / booleans / null, JSON_IETF, BYTES incl. payloads that look "
+                            "like JSON) instead of Update.val: plain leaves, several legacy values meeting on one leaf, members (also the first) of atomic containers and of multi-update notifications, "
+                            "replace notifications, bulk states and 16 KB - 3 MiB values, leaves and containers sent again while an observer's handler is blocked (a hot leaf rewritten in every round of "
+                            "a burst), the state reported again after a stream break. The reference view holds what the client library documents for them (json.Unmarshal into any: map / slice / "
+                            "string / float64 / bool / nil; BYTES as they are) and the expected gnmi_cli text is rendered from that by the harness; labels record the scripted slow-consumer shape "
+                            "(legacy leaf written >= 2 times inside a pause and never after) and what the schedule made of it (coalesced legacy delivery observed / being the last word on its leaf / at "
+                            "a blocked observer)."),
+                technique="; target address lists with dead endpoints; single responses above gRPC's default message size; targets speaking the deprecated Update.value encoding",
                 level_note=("; a Subscribe call the script did not ask for (the collector lost the stream on its own) does not count as progress for the hang rule, so a collector that never "
-                            "connects or keeps resetting a target ends as 'quiesced-but-incomplete' after two runs from scratch, with the end of the collector's log in the message"),
+                            "connects or keeps resetting a target ends as 'quiesced-but-incomplete' after two runs from scratch, with the end of the collector's log in the message"
+                            "; legacy values: encodings the client documents as an error (PROTO, ASCII in Update.value), empty payloads, JSON numbers beyond float64's integer range and strings with "
+                            "line breaks are not generated"),
                 rule="; reach part: additionally some target lists a dead address besides its live one; size part: additionally a target did send a single response above 4 MiB or with >= 1000 updates"),
     "C02": dict(level_text=(" Further generated dimensions: prefix and paths in independent encodings (structured, deprecated strings, both mixed, stray deprecated strings next to elem), absolute "
                             "timestamps from the edges of the int64 range (scenarios without a future threshold), key names differing only in case, NaN/Inf/-0, odd element names, operations through "
@@ -935,7 +945,10 @@ EXT3 = {
     "C02": dict(level_text=(" Further: future thresholds that mean 'never reject' (time.Duration(MaxInt64), 2^62, 290 years: every sum of a threshold and a timestamp wraps); values in the deprecated "
                             "Update.value field (bytes + encoding, val unset), in one scenario out of eight for most leaves, so that two such values meet on one leaf at one timestamp. One scenario in twelve (C02/C03 profiles) stores leaves under an element or key value that is literally '*' "
                             "(a catch-all selector is a legal list key); those scenarios carry no delete notifications, because the announcement of such a leaf's removal cannot be told from a wildcard delete.")),
-    "C14": dict(level_text=(" Part owners (free-running, real scheduler inside a synctest bubble): 2-5 targets each driven by its own goroutine running a sequential script (updates, exact/subtree/glob "
+    "C14": dict(level_text=(" Random part, further: the isolation clause as a metamorphic relation - the scenario is run again on a fresh cache with every operation addressed to the other targets left "
+                            "out (the clock and the cache-wide refreshes stay), and everything stored and reported for the kept target, its metadata subtree included, must be identical in both "
+                            "runs; caches created with a server name (also in C03/C15); after Reset every registered metadata value is compared with that of a target just registered with a cache "
+                            "of the same options. Part owners (free-running, real scheduler inside a synctest bubble): 2-5 targets each driven by its own goroutine running a sequential script (updates, exact/subtree/glob "
                             "deletes, Reset, Remove, Add, Sync, Connect, ConnectError, queries) plus a refresher goroutine (UpdateMetadata, UpdateSize, Metadata, all-target queries) and 0-2 bystander "
                             "targets; 40 aligned-start rounds per case. Because no operation on one target may change another, under every schedule each target holds after each of its owner's operations "
                             "exactly what the owner's sequential model says, the replay of that target's change feed gives the same values (empty after Reset and Remove), bystanders are unchanged and "
